@@ -271,6 +271,13 @@ def _attrs(img, prof):
     return {"variant": prof["variant"], "grain": prof["grain"], "K": prof["K"], "parent": img["parent"]}
 
 
+def _mk_trace(tid, r, nops, thorough):
+    if tid % 7 == 0:   # extents behind one VMDK object: several of them, via handles or a descriptor (requests crossing from one into the next)
+        import importlib
+        return importlib.import_module("props.c10").make_trace(tid, r, nops)
+    return make_trace(tid, r, nops, many=("mid" if tid % 8 == 0 else None))
+
+
 def run(ctx):
     thorough = ctx.tier == "thorough"
     rng = random.Random(ctx.seed + 202)
@@ -288,8 +295,8 @@ def run(ctx):
     diskprop.replay_states(ctx, "vmdk", sts, profs, build, attrs_of=_attrs, cap=56 if thorough else 32, sectors_api=_sectors)
     check_flat(ctx, rng, 12 if thorough else 4)
     check_compressed_boundary(ctx, rng, thorough)
-    diskprop.traces(ctx, "vmdk", lambda tid, r: make_trace(tid, r, 40 if thorough else 25, many=("mid" if tid % 8 == 0 else None)), 320 if thorough else 64,
-                    "TraceDisk", "TraceDisk.cfg", lambda t: {"format": "vmdk", "variant": t["variant"]})
+    diskprop.traces(ctx, "vmdk", lambda tid, r: _mk_trace(tid, r, 40 if thorough else 25, thorough), 320 if thorough else 70,
+                    "TraceDisk", "TraceDisk.cfg", lambda t: {"format": "vmdk", "variant": t.get("variant", "multi-extent")})
 
 
 def replay(ctx, body):
